@@ -138,6 +138,17 @@ func init() {
 		if hexOf(s1) != hexOf(s2) {
 			res += " IMPURE-SUM"
 		}
+		// the destination handed to Sum is the caller's: whatever its spare capacity holds, and whatever it already
+		// contains, an EMPTY destination gets exactly the parity (a scratch buffer reused for the next block, Sum twice into one buffer)
+		dirty := make([]byte, n+8)
+		for i := range dirty {
+			dirty[i] = 0xA5
+		}
+		s3 := h.Sum(dirty[:0])
+		s4 := h.Sum(s3[:0]) // the same backing array, now holding the parity
+		if hexOf(s3) != hexOf(s2) || hexOf(s4) != hexOf(s2) {
+			res += " DIRTY-DESTINATION(" + hexOf(s3) + "," + hexOf(s4) + ")"
+		}
 		h.Reset()
 		z := h.Sum(nil)
 		for _, v := range z {
